@@ -54,7 +54,11 @@ func (s *Solver) oneShot(extra *Term) SatResult {
 	if tmo == 0 {
 		tmo = 4 * s.timeoutMs
 	}
-	cmd := exec.Command(solverExe(s.bin), oneShotArgs(s.bin, tmo)...)
+	rb := s.retryBin
+	if rb == "" {
+		rb = s.bin
+	}
+	cmd := exec.Command(solverExe(rb), oneShotArgs(rb, tmo)...)
 	cmd.Stdin = strings.NewReader(body.String())
 	var out bytes.Buffer
 	cmd.Stdout = &out
